@@ -418,13 +418,14 @@ Section ReadOne.
   Qed.
 
   (* the loop head on the second half of a rename: nothing pending, or the pending first half of this very rename *)
-  Lemma settle_own r k e :
+  Lemma settle_own r k e wdp :
     (forall c p, pend r = Some (c, p) -> c = k_cookie e) -> is_moved_to (k_mask e) = true ->
+    alookup N.eqb (k_wd e) (pfw r) = Some wdp ->
     exists r0, settle_pending C r k e = (r0, k) /\ pfw r0 = pfw r.
   Proof.
-    intros Hown Hto. unfold settle_pending. destruct (c_fix_moveout C); [|eexists; split; reflexivity].
+    intros Hown Hto Hwd. unfold settle_pending. destruct (c_fix_moveout C); [|eexists; split; reflexivity].
     destruct (pend r) as [[c p]|] eqn:Ep; [|eexists; split; reflexivity].
-    rewrite (Hown c p eq_refl), Hto, N.eqb_refl. eexists; split; reflexivity.
+    unfold amem. rewrite (Hown c p eq_refl), Hto, N.eqb_refl, Hwd. eexists; split; reflexivity.
   Qed.
 
   (* the second half of a rename: the bookkeeping may change, the event is the same in every branch *)
@@ -437,7 +438,7 @@ Section ReadOne.
     exists r' k', read_one C t (r, k, acc) e = Done (r', k', acc ++ [mkraw e (join wdp (k_name e))]).
   Proof.
     intros H0 H1 H2 H3 H4 H5. unfold read_one.
-    destruct (settle_own r k e H0 H3) as [r0 [-> Hpfw]]. rewrite <- Hpfw in H1. clear H0 Hpfw. revert H1.
+    destruct (settle_own r k e wdp H0 H3 H1) as [r0 [-> Hpfw]]. rewrite <- Hpfw in H1. clear H0 Hpfw. revert H1.
     generalize r0. clear r. intros r H1.
     unfold read_one_body. rewrite H1, H2, H3, H4.
     assert (H5' : forall b, b && is_directory (k_mask e) && is_create (k_mask e) = false).
